@@ -84,7 +84,8 @@ pub fn compare(bytes: &[u8]) -> Outcome {
             }
             for (idx, (m, d)) in insts.iter().zip(col.insts.iter()).enumerate() {
                 match model::to_dr(m) {
-                    Some(e) if &e == d => {}
+                    // field by field through the model, not through the subject's own PartialEq
+                    Some(e) if model::from_dr(d) == *m && e.class.opname == d.class.opname => {}
                     other => return dis("prefix", format!("delivered instruction {} is {:?} {:?}; the grammar dictates {}", idx + 1, d.class.opname, d.operands, other.map(|_| m.short()).unwrap_or_else(|| format!("(unconstructible) {}", m.short())))),
                 }
             }
